@@ -4,6 +4,8 @@
 using gmlc::concurrency::Latch;
 enum { G_N = 0, G_BEGUN = 1 };
 extern "C" {
+void vp_hb_data_write(int loc) noexcept;
+void vp_hb_data_read(int loc) noexcept;
 Latch* g_latch;
 void vp_setup()
 {
@@ -19,11 +21,17 @@ void vp_waiter()
 {
     g_latch->wait();
     vp_assert(vp_g(G_BEGUN) >= vp_g(G_N), 1000);   // returns only after >= count arrive calls have begun
+#ifdef HB_DATA
+    if (vp_g(G_N) == NARRIVE) vp_hb_data_read(0);  // what the (only) arriver wrote before its arrivals is visible, race-free
+#endif
     g_latch->wait();                               // once open, every later wait returns
     vp_cover(vp_tid() - 1);
 }
 void vp_arriver()
 {
+#ifdef HB_DATA
+    vp_hb_data_write(0);
+#endif
 #pragma unroll
     for (int k = 0; k < NARRIVE; k++) {
         vp_gadd(G_BEGUN, 1);
